@@ -101,6 +101,7 @@ CORPUS["C02"] = [
 ]
 
 CORPUS["C03"] = [
+    M("branching ratio folded into the caller's exit-probability array", (GEO, "so will need to be changed)\n        mcintfactor *= Bshr * tauexitprob\n", "so will need to be changed)\n        tauexitprob *= Bshr\n        mcintfactor *= tauexitprob\n")),
     M("target sums divided by survivors", (GEO, "mcintegralgeoonly = np.sum(mcintfactor) / len(self.times)", "mcintegralgeoonly = np.sum(mcintfactor) / len(mcintfactor)")),
     M("diffuse trigger <= threshold", (GEO, "        mcintfactor[triggers < threshold] = 0\n        mcintegral = np.sum(mcintfactor) * mcnorm / numTrajs",
                                        "        mcintfactor[triggers <= threshold] = 0\n        mcintegral = np.sum(mcintfactor) * mcnorm / numTrajs")),
